@@ -17,6 +17,8 @@ for line in p.stdout.splitlines():
         (passed if e["Action"] == "pass" else failed).add("%s::%s" % (e["Package"], e["Test"]))
 missing = sorted(want - passed)
 print("baseline: %d/%d stable tests passed; %d failed overall" % (len(want & passed), len(want), len(failed)))
+for f in sorted(failed)[:20]:
+    print("  FAILED:", f)
 for m in missing[:40]:
     print("  NOT PASSED:", m)
 subprocess.run(["git", "-C", "/repo", "status", "--short"])
